@@ -36,7 +36,7 @@ ASSUMPTIONS = [
     "force_stop() called on the owner's own loop: a coroutine call whose awaited future had been resolved before that call must deliver the body's outcome (it only needs one more loop turn); "
     "futures resolved after the call may end either way; bodies still suspended end with a cancellation",
 ]
-PROBES = ["call.handover", "call.coro_value", "call.coro_slow", "call.coro_careful", "call.coro_raises", "call.coro_raises_now", "call.coro_value_now", "call.coro_raises_timeout", "call.coro_raises_lookup", "call.plain_none", "call.plain_value", "call.attr", "call.direct", "call.after_close", "force_stop_mid_burst", "force_stop_from_task",
+PROBES = ["sibling_object_same_class", "call.handover", "call.coro_value", "call.coro_slow", "call.coro_careful", "call.coro_raises", "call.coro_raises_now", "call.coro_value_now", "call.coro_raises_timeout", "call.coro_raises_lookup", "call.plain_none", "call.plain_value", "call.attr", "call.direct", "call.after_close", "force_stop_mid_burst", "force_stop_from_task",
           "preempted_in_proxy", "thread_switches", "typeerror_on_owner", "cancelled_by_stop", "owner_main_direction", "burst_ge_10", "ownerstop.direct", "ownerstop.done_callback",
           "ownerstop.call_value", "ownerstop.call_raise", "ownerstop.call_late", "ownerstop.call_never"]
 
@@ -292,6 +292,36 @@ def run(scenario, params, tape, detail=False):
         if direction == "main":
             probe("owner_main_direction")
         st["stop_ev"] = None
+        if direction == "worker":
+            # a second object of the SAME class behind its own proxy, whose attributes differ at instance level (a callback slot that is None, a
+            # method replaced by an async one): what a name is - coroutine method, plain method, not callable - is decided per object
+            probe("sibling_object_same_class")
+            sib = Obj(rec)
+            sib.plain_none = None
+
+            async def async_override(x, _sib=sib):
+                _sib._note("plain_value", x)
+                await asyncio.sleep(0)
+                return ("value", x)
+
+            sib.plain_value = async_override
+            proxy_sib = bt.ThreadsafeProxy(sib, owner_loop)
+            proxy.plain_none(-10)
+            proxy.plain_value(-11)
+            st["extra_typeerrors"] = 1
+            await asyncio.sleep(0.01)
+            try:
+                proxy_sib.plain_none
+                viol.append(("C20.attr", "sibling-noncallable-not-refused", "a non-callable attribute of a second object of the same class was not refused after the name had been looked up (as a method) on the first object"))
+            except TypeError:
+                pass
+            try:
+                r = proxy_sib.plain_value(-12)
+                got = await asyncio.wait_for(r, 1.0) if r is not None else None
+            except Exception as e:  # noqa: BLE001
+                got = e
+            if got != ("value", -12):
+                viol.append(("C20.relay", "sibling-async-override", f"an async method installed on a second object of the same class returned {got!r} through its proxy (expected its result)"))
 
         async def one(c):
             """Runs on the *caller's* loop."""
@@ -568,7 +598,7 @@ def run(scenario, params, tape, detail=False):
     # plain_value -> TypeError on the owner loop, not in the caller
     npv = sum(1 for c in calls if c["kind"] == "plain_value" and not c.get("after_close") and len(executed.get(c["id"], [])) == 1)
     nte = sum(1 for (_m, tname, _r) in owner_exc if tname == "TypeError")
-    nte -= 0
+    nte -= st.get("extra_typeerrors", 0)  # (the priming call of the sibling-object section returns a value on purpose)
     if npv:
         probe("typeerror_on_owner", nte)
         if nte != npv and stop_ev is None:
